@@ -134,7 +134,7 @@ def plan(tier, seed):
         return [dict(name='emitter', cfg='gxx', evaluations=0, distinct_nontrivial=0,
                      excluded={k: dict(hits=v, example='conversion targets adjusted by the chain emitter') for k, v in excl.items()},
                      note='narrowing conversions that would shift out every digit of the source are not emitted in random chains (listed known finding; the fixed chain fixed-shiftout carries the witness)')]
-    cases = 4000 if quick else 20000
+    cases = 20000 if quick else 50000
     units = [Unit('C11-gxx-%d' % i, 'gxx', 'props/C11.h', part, rc_cases=cases, chunk=4)
              for i, part in enumerate(split(regs, 16 if quick else 64))]
     return dict(units=units, rule=RULE, extra=extra, assumptions=[
